@@ -71,7 +71,7 @@ def size_class(n: int) -> str:
 def gen_records(rng: random.Random, delta: int) -> list[tuple[int, str, Any, int]]:
     """records as (offset, kind, payload, fill-seed); payload for plain is a length."""
     style = rng.choice(["mixed", "mixed", "tiny_many", "big", "rle_heavy", "single", "empty"] if rng.random() < 0.3 else ["mixed", "mixed", "tiny_many", "big", "rle_heavy", "single"])
-    n = {"mixed": rng.randrange(1, 7), "tiny_many": rng.randrange(6, 13), "big": rng.randrange(1, 3), "rle_heavy": rng.randrange(1, 6), "single": 1, "empty": 0}[style]
+    n = {"mixed": rng.randrange(1, 7), "tiny_many": rng.randrange(6, 13) if rng.random() < 0.9 else rng.randrange(150, 400), "big": rng.randrange(1, 3), "rle_heavy": rng.randrange(1, 6), "single": 1, "empty": 0}[style]
     recs: list[tuple[int, str, Any, int]] = []
     cursor = rng.randrange(FREE_LO, FREE_HI)
     for i in range(n):
@@ -471,6 +471,11 @@ def sub_cases(case: dict[str, Any]) -> Iterator[dict[str, Any]]:
             cuts_set |= {a, a + 1, b - 1, b, (a + b) // 2}
         cuts_set |= {rng.randrange(0, n) for _ in range(20)}
         cuts = sorted(c for c in cuts_set if 0 <= c < n)
+        if len(cuts) > 160:
+            # many records: keep the file's two ends and a seeded sample of the interior boundaries
+            keep = set(cuts[:30] + cuts[-30:])
+            keep |= set(rng.sample(cuts[30:-30], 100))
+            cuts = sorted(keep)
     for at in cuts:
         yield dict(base, knobs=knobs_for(krng) if rng.random() < 0.5 else {}, damage={"kind": "truncate", "at": at})
     yield dict(base, knobs={}, damage={"kind": "drop_header"})
